@@ -179,6 +179,11 @@ func (self *Interpreter) forStatement(node ast.AnalyzedForStatement) *value.Inte
 
 loop:
 	for {
+		// An empty body contains nothing that would check for cancelation.
+		if i := self.checkCancelation(node.Range); i != nil {
+			return i
+		}
+
 		// loop control
 		currIterVar, shouldContinue := iterator()
 		if !shouldContinue {
